@@ -287,8 +287,28 @@ SEMANTIC += ['f(x:=1, y)\n', 'f(a, x:=1, b)\n', 'f(x:=1, x=2)\n', 'f((x:=1), y)\
              'f"{x:\\t>5}"\n', 'f"{x:\\x20<3}"\n', "f'{x:\\N{BULLET}^9}'\n", 'f"\\t{x}\\n"\n', 'f"{x!r:\\t>5}"\n', 'f"{x:{w}\\t}"\n', "rf'{x:\\d}'\n", 'f"{x}\\\n{y}"\n',
              "f'''{x:\\t>5}\n{y}'''\n", 'f"{{\\t}}{x}"\n']
 
+def _comparison_programs():
+    """every operand shape on either side of every comparison operator (E721 / `is` with literals / chained comparisons look at the operands)"""
+    operands = ['x', 'x.y', 'x[0]', 'f()', 'type(a)', 'type(a).b', '(a or b).c', '(a)', '(a, b)', '[1][0]', '[1, 2]', '().__class__', '{}.get', '{1: 2}[1]', "''.join", '"s"', 'b"b"',
+                '1', '1.5', 'None', 'True', '...', '(lambda: 0)()', 'lambda: 0', '-x', 'not x', 'x if y else z', 'await_', '(yield_)', 'f(a)(b)', 'f(a).b', 'x.y.z', '(p or q).name',
+                '[i for i in j]', '(i for i in j)', '{a}', 'type', 'type(a) is type(b)', 'a < b']
+    ops = ['==', '!=', '<', '<=', '>', '>=', 'is', 'is not', 'in', 'not in']
+    out = []
+    for i, a in enumerate(operands):
+        for j, o in enumerate(ops):
+            b = operands[(i * 7 + j * 3 + 1) % len(operands)]
+            out.append('%s %s %s\n' % (a, o, b))
+            if (i + j) % 4 == 0:
+                out.append('if %s %s %s %s z:\n    pass\n' % (a, o, b, ops[(j + 3) % len(ops)]))
+    return out
+
+
+COMPARISONS = _comparison_programs()
+SEMANTIC += COMPARISONS
+
 # ---- programs that make each rule of errors.py fire (or sit just beyond its boundary): the error finder must list them without raising ----
 INVALID = [
+    "x = b'\udc80'\n", "y = '\udc80'\n", "z = rb'\udfff'\n", "w = b'''\ud800'''\n", "f'{a}\udc80'\n", "# \udc80\nq = 1\n", "\udc80 = 1\n", "v = b'a\udcff\\x'\n",
     'def f():\n    global x\n    nonlocal x\n', 'def f():\n    nonlocal x\n', 'def f():\n    x = 1\n    global x\n', 'def f():\n    print(x)\n    global x\n',
     'def f(x):\n    global x\n', 'def f(x):\n    def g():\n        nonlocal x\n    nonlocal y\n', 'def f():\n    x: int\n    global x\n', 'def f():\n    import x\n    global x\n',
     'def f():\n    for x in y: pass\n    nonlocal x\n', 'class C:\n    nonlocal x\n', 'nonlocal x\n', 'def f():\n    global x\n    x: int = 1\n',
@@ -355,7 +375,7 @@ def _comprehension_programs():
     elems = ['x', '(y := x)', 'await x', '(y := await x)', 'lambda: x', '(lambda: (y := x))()', 'x if x else (y := 1)', '[w for w in x]', '[(v := w) for w in x]',
              '[w async for w in x]', '(yield x)', 'f(y := x)', 'x[y := 0]']
     loops = ['for x in z', 'async for x in z', 'for x in z for w in x', 'async for x in z for w in x', 'for x in z async for w in x', 'for x in z if x', 'for x in z if (q := x)',
-             'async for x in z if (q := x)', 'for x, *w in z', 'for x in (y := z)', 'for x in [k for k in z]', 'for x in await z', 'for x in lambda: z']
+             'async for x in z if (q := x)', 'for x in z if x async for w in x', 'for x in z if x for w in x', 'async for x in z if x async for w in x', 'for x in z if x if w async for v in x', 'for x, *w in z', 'for x in (y := z)', 'for x in [k for k in z]', 'for x in await z', 'for x in lambda: z']
     kinds = ['[%s %s]', '{%s %s}', '{%s: 0 %s}', '(%s %s)', 'f(%s %s)', 'f(a, (%s %s))']
     scopes = ['%s\n', 'def f():\n    return %s\n', 'async def f():\n    return %s\n', 'class C:\n    v = %s\n', 'async def f():\n    def g():\n        return %s\n',
               'def f():\n    async def g():\n        return %s\n', 'lambda: %s\n']
